@@ -30,7 +30,15 @@ def prime():
 
 def gen(rng, idx, tier):
     pad = rng.choice(["rand", "rand", 0xFF, None])
-    ev = bustraffic.history(rng, pad=pad, all_defs=rng.random() < 0.6, multi_def_bias=True, repeat_seq=rng.random() < 0.4,
+    # every listener gets the same decoder settings, drawn per run: what a format carries must not depend on them either
+    cfg = rng.choice([{}, {}, {}, {"build_network_map": True}, {"build_network_map": True, "exclude_manufacturer_code": ["Garmin"]},
+                      {"exclude_pgns": [129029, "vesselHeading"]}, {"preferred_units": {"ANGLE": "deg", "TEMPERATURE": "C"}}])
+    # With admission settings a claim in the middle of a message legitimately leaves that message unfinished in the
+    # frame-level decoders; a follow-up message repeating its counter would then be ambiguous, so the two features
+    # (repeated counters, admission settings) are explored in separate runs
+    admission = bool(cfg.get("build_network_map") or cfg.get("exclude_manufacturer_code"))
+    ev = bustraffic.history(rng, pad=pad, all_defs=rng.random() < 0.6, multi_def_bias=True,
+                            repeat_seq=(rng.random() < 0.4) and not admission,
                             max_active=3 if rng.random() < 0.9 else 24, burst_fast=0 if rng.random() < 0.95 else rng.choice([17, 20, 33]))
     # one more listener is a single decoder object that receives every message through a format chosen per message
     # (frame-level or pre-assembled): what a format carries must not depend on what the decoder saw before
@@ -38,9 +46,6 @@ def gen(rng, idx, tier):
     for e in ev:
         if e["m"] not in mix:
             mix[e["m"]] = rng.choice(bus.FRAME_FORMATS + bus.WHOLE_FORMATS + ["ebyte", "actisense"])
-    # every listener gets the same decoder settings, drawn per run: what a format carries must not depend on them either
-    cfg = rng.choice([{}, {}, {}, {"build_network_map": True}, {"build_network_map": True, "exclude_manufacturer_code": ["Garmin"]},
-                      {"exclude_pgns": [129029, "vesselHeading"]}, {"preferred_units": {"ANGLE": "deg", "TEMPERATURE": "C"}}])
     return {"events": ev, "mix": {str(k): v for k, v in mix.items()}, "config": cfg,
             "clock": rng.choice([0.0, 0.0, 100.0, 599.0, 601.0, 5000.0]),
             # time of day the Yacht Devices gateway stamps on its first line (10 ms per frame afterwards): sometimes the
